@@ -792,7 +792,144 @@ def _pool_state(ex, st, FI):
     return out
 
 
-OBLIGATIONS = [m1_skip_height, m2_ancestor_step, m3_header_view_codec, m4_locator, m5_fast_path_reads_one_snapshot, m6_header_map_two_tiers_refine_a_plain_map, m7_inflight_timeout_releases_both_sides, m8_orphan_pool_release]
+def m9_inflight_table(S):
+    """`InflightBlocks::insert` x k, then `remove_by_block` or `remove_by_peer` (sync/src/types/mod.rs) from the empty table, with the peer -> scheduler map, the block -> state map and
+    the trace map as association lists with SYMBOLIC keys: peers, block numbers and block hashes are symbols, so every coincidence of peers and blocks among the k requests and the
+    released block / peer is covered.  Decided: a block is never in flight from two peers (the first request wins, a repeated request is refused and changes nothing); every
+    block listed for a peer is in flight from exactly that peer and vice versa; the trace holds exactly the accepted blocks at or below the restart number; when a block
+    arrives exactly that block is released (state, its peer's set, trace), when a peer leaves exactly its blocks and its scheduler are released, everything else is kept."""
+    from mir2smt import symmap as SM
+    from mir2smt.exec import Driver, ListV
+    from mir2smt.srcinfo import field_index
+    ob = "C17.m9"
+    FI = field_index("sync/src/types/mod.rs", "InflightBlocks")
+    DS = field_index("sync/src/types/mod.rs", "DownloadScheduler")
+    ST = field_index("sync/src/types/mod.rs", "InflightState")
+    imp = r"types::<impl at sync/src/types/mod.rs:\d+:1: \d+:20>::"
+    fn = lambda short, np: _one(S, lambda x: re.search(imp + short + "$", x.name) and len(x.params) == np and "InflightBlocks" in x.params[0][1], "InflightBlocks::" + short)
+    f_ins, f_rb, f_rp = fn("insert", 3), fn("remove_by_block", 2), fn("remove_by_peer", 2)
+    f_dsdef = _one(S, lambda x: x.short == "default" and x.ret.endswith("DownloadScheduler") and "sync/src/types/mod.rs" in x.name, "DownloadScheduler::default")
+    for k, op in ((2, "block"), (2, "peer")) + (((3, "block"), (3, "peer")) if S.tier != "quick" else ()):
+        ctx = S.ctx(unwind=2 * k + 6)
+        ctx.uninterpreted_unknown_calls = True
+        ctx.prune_with_solver = True
+        ctx.max_paths = 60000
+        q = [ctx.int(f"peer{i}", "usize") for i in range(k)]
+        bn = [ctx.int(f"number{i}", "u64") for i in range(k)]
+        bh = [ctx.int(f"id!hash{i}", "u64").t for i in range(k)]
+        rq, rn, rh = ctx.int("released_peer", "usize"), ctx.int("released_number", "u64"), ctx.int("id!released_hash", "u64").t
+        restart = ctx.int("restart_number", "u64")
+        mkpeer = lambda v: AggV((v,), "SessionId")
+        mkblock = lambda nv, name: AggV((nv, OpaqueV(name, "Byte32")), "BlockNumberAndHash") if _bnh_number_first() else AggV((OpaqueV(name, "Byte32"), nv), "BlockNumberAndHash")
+        init = {"download_schedulers": SM.MapV((), "HashMap<SessionId, DownloadScheduler>"), "inflight_states": SM.MapV((), "BTreeMap<BlockNumberAndHash, InflightState>"),
+                "trace_number": SM.MapV((), "HashMap<BlockNumberAndHash, u64>"), "restart_number": restart, "time_analyzer": OpaqueV("time_analyzer", "TimeAnalyzer"),
+                "adjustment": BoolV(False), "protect_num": ctx.int("protect_num", "usize")}
+        table = ctx.ref_to(AggV(tuple(init[name] for name, _ in sorted(FI.items(), key=lambda kv: kv[1])), "InflightBlocks"))
+        ctx.env = list(E.LOGGING_OFF) + [
+            (E.rx(r"unix_time_as_millis$"), lambda ex, c, a, d: ex.ctx.int("now", "u64")),
+            (E.rx(r"<(BlockNumberAndHash|SessionId|Byte32) as Clone>::clone$"), lambda ex, c, a, d: deref(ex, a[0])),
+            (E.rx(r" as ExactSizeIterator>::len$"), lambda ex, c, a, d: IntV(len(E._rest(ex, deref(ex, a[0]))), "usize")),
+        ] + SM.handlers(r"(SessionId|BlockNumberAndHash)", default_value=lambda ex, c, d: ex.call_function(f_dsdef, [])) + SM.EXTRAS + list(E.LIST_ADAPTORS)
+
+        def snapshot(ex):
+            t = deref(ex, table)
+            kt = lambda key: tuple(key)       # KeyTuple -> plain tuple of terms
+            st = [(kt(key), deref(ex, cell).fields[ST["peer"]]) for key, cell, _ in t.fields[FI["inflight_states"]].items]
+            sch = [(kt(key), [kt(x[0]) for x in deref(ex, cell).fields[DS["hashes"]].items]) for key, cell, _ in t.fields[FI["download_schedulers"]].items]
+            tr = [kt(key) for key, _, _ in t.fields[FI["trace_number"]].items]
+            return st, sch, tr
+
+        def body(ex):
+            rets = []
+            for i in range(k):
+                r_ = ex.call_function(f_ins, [table, mkpeer(q[i]), mkblock(bn[i], f"hash{i}")])
+                rets.append(r_.t if isinstance(r_, BoolV) else None)
+            mid = snapshot(ex)
+            if op == "block":
+                out = ex.call_function(f_rb, [table, mkblock(rn, "released_hash")])
+            else:
+                out = ex.call_function(f_rp, [table, mkpeer(rq)])
+            return rets, mid, (out.t if isinstance(out, (BoolV, IntV)) else None), snapshot(ex)
+        ps = S.run(ctx, Driver(f"inflight_{k}_requests_then_{op}_released", body), [])
+        tag = f"{k}_requests_then_{op}_released"
+        S.prove(ctx, ob, f"{tag}_no_panic", [], T.not_(cond_of(panics(ps))))
+        rs = returns(ps)
+        B = [(bn[i].t, bh[i]) for i in range(k)] if _bnh_number_first() else [(bh[i], bn[i].t) for i in range(k)]
+        RB = (rn.t, rh) if _bnh_number_first() else (rh, rn.t)
+        numof = (lambda key: key[0]) if _bnh_number_first() else (lambda key: key[1])
+        keq = lambda x, y: T.and_(*[T.eq(u, v) for u, v in zip(x, y)])
+        acc = [T.and_(*[T.not_(keq(B[i], B[j])) for j in range(i)]) for i in range(k)]
+
+        def consistent(snap, live):
+            """the three maps hold exactly the requests i with live[i] (live[i] implies acc[i])"""
+            st, sch, tr = snap
+            g = []
+            for i in range(k):
+                # every live request is recorded (the converse -- nothing else is recorded -- follows from the per-entry clauses below)
+                g.append(T.implies(live[i], T.or_(*[T.and_(keq(key, B[i]), T.eq(as_int(peer), q[i].t)) for key, peer in st]) if st else False))
+                g.append(T.implies(live[i], T.or_(*[T.and_(T.eq(pk[0], q[i].t), T.or_(*[keq(x, B[i]) for x in items]) if items else False) for pk, items in sch]) if sch else False))
+                g.append(T.implies(T.and_(live[i], T.ge(restart.t, numof(B[i]))), T.or_(*[keq(x, B[i]) for x in tr]) if tr else False))
+            for key, peer in st:
+                g.append(T.or_(*[T.and_(keq(key, B[i]), live[i], T.eq(as_int(peer), q[i].t)) for i in range(k)]))
+            for pk, items in sch:
+                for x in items:
+                    g.append(T.or_(*[T.and_(keq(x, B[i]), live[i], T.eq(pk[0], q[i].t)) for i in range(k)]))
+            for x in tr:
+                g.append(T.or_(*[T.and_(keq(x, B[i]), live[i], T.ge(restart.t, numof(B[i]))) for i in range(k)]))
+            # keys are stored once
+            for a_ in range(len(st)):
+                for b_ in range(a_ + 1, len(st)):
+                    g.append(T.not_(keq(st[a_][0], st[b_][0])))
+            # no block listed under two peers
+            for a_ in range(len(sch)):
+                for b_ in range(a_ + 1, len(sch)):
+                    for x in sch[a_][1]:
+                        for y in sch[b_][1]:
+                            g.append(T.not_(keq(x, y)))
+            return T.and_(*g)
+        g_ret, g_mid, g_out, g_fin, g_sched = [], [], [], [], []
+        for pth in rs:
+            rets, mid, out, fin = pth.value
+            c = pth.cond()
+            g_ret.append(T.implies(c, T.and_(*[T.iff(rets[i], acc[i]) if rets[i] is not None else False for i in range(k)])))
+            g_mid.append(T.implies(c, consistent(mid, acc)))
+            if op == "block":
+                hit = T.or_(*[T.and_(acc[i], keq(B[i], RB)) for i in range(k)])
+                live = [T.and_(acc[i], T.not_(keq(B[i], RB))) for i in range(k)]
+                g_out.append(T.implies(c, T.iff(out, hit) if out is not None else False))
+                g_fin.append(T.implies(c, consistent(fin, live)))
+                # schedulers themselves stay (only the block leaves its peer's set)
+                g_sched.append(T.implies(c, T.and_(*[T.iff(T.or_(*[T.eq(pk[0], q[i].t) for pk, _ in fin[1]]) if fin[1] else False, T.or_(*[T.and_(acc[j], T.eq(q[j].t, q[i].t)) for j in range(k)])) for i in range(k)])))
+            else:
+                cnt = 0
+                for i in range(k):
+                    cnt = T.add(cnt, T.ite(T.and_(acc[i], T.eq(q[i].t, rq.t)), 1, 0))
+                live = [T.and_(acc[i], T.ne(q[i].t, rq.t)) for i in range(k)]
+                g_out.append(T.implies(c, T.eq(out, cnt) if out is not None else False))
+                g_fin.append(T.implies(c, consistent(fin, live)))
+                g_sched.append(T.implies(c, T.and_(*[T.ne(pk[0], rq.t) for pk, _ in fin[1]])))
+        S.prove(ctx, ob, f"{tag}_a_request_is_accepted_iff_the_block_is_not_already_in_flight", [], T.and_(*g_ret))
+        S.prove(ctx, ob, f"{tag}_after_the_requests_states_peer_sets_and_trace_hold_exactly_the_accepted_requests_one_peer_per_block", [], T.and_(*g_mid))
+        S.prove(ctx, ob, f"{tag}_release_reports_exactly_what_was_in_flight", [], T.and_(*g_out))
+        S.prove(ctx, ob, f"{tag}_release_removes_exactly_the_affected_entries_and_keeps_the_rest", [], T.and_(*g_fin))
+        S.prove(ctx, ob, f"{tag}_scheduler_of_a_leaving_peer_is_dropped_of_an_arriving_block_kept", [], T.and_(*g_sched))
+        S.witness(ctx, ob, f"{tag}_reach_same_block_requested_from_two_peers", [], T.and_(keq(B[0], B[1]), T.ne(q[0].t, q[1].t)))
+        S.witness(ctx, ob, f"{tag}_reach_release_hits", [], (T.and_(keq(B[1], RB), T.not_(keq(B[0], B[1]))) if op == "block" else T.and_(T.eq(q[0].t, rq.t), T.eq(q[1].t, rq.t), T.not_(keq(B[0], B[1])))))
+
+
+def _bnh_number_first():
+    from mir2smt.srcinfo import struct_fields
+    for rel in ("util/types/src/lib.rs", "util/types/src/block_number_and_hash.rs"):
+        try:
+            f = struct_fields(rel, "BlockNumberAndHash")
+            if f:
+                return f[0] == "number"
+        except Exception:
+            pass
+    raise Inconclusive("struct BlockNumberAndHash not found")
+
+
+OBLIGATIONS = [m1_skip_height, m2_ancestor_step, m3_header_view_codec, m4_locator, m5_fast_path_reads_one_snapshot, m6_header_map_two_tiers_refine_a_plain_map, m7_inflight_timeout_releases_both_sides, m8_orphan_pool_release, m9_inflight_table]
 
 ENGINE = "M"
 LEVEL = "other"
